@@ -509,3 +509,13 @@ def run(ctx):
     _run_before_clock(ctx)
     # termination also when the step size is below the resolution of the times (float32 ts far from the origin)
     ctx.guard(ik.rule_clock_progress, "R14.8")
+
+
+_run_before_r14_9 = run
+
+
+def run(ctx):
+    _run_before_r14_9(ctx)
+    # the statement clause by clause on traces of the real adaptive driver under seeded scripted controller schedules
+    from . import solver_replay
+    ctx.guard(solver_replay.r14_9)
